@@ -6,6 +6,7 @@
 //! a behaviour of the specification.  The harness itself never judges.
 
 mod agg_drv;
+mod client_drv;
 mod cluster_drv;
 mod core_drv;
 mod persist_drv;
@@ -30,6 +31,8 @@ fn main() {
         "redb-run" => redb_drv::main_run(&args[2..]),
         "persist-run" => persist_drv::main_run(&args[2..]),
         "sock-run" => sock_drv::main_run(&args[2..]),
+        "client-run" => client_drv::main_run(&args[2..]),
+        "buffer-run" => client_drv::buffer_run(&args[2..]),
         other => {
             eprintln!("unknown command {other}");
             2
